@@ -417,7 +417,7 @@ def _run_graddrop(case, acc):
                 rp = DrawReplayer([("rand", list(U))])
                 try:
                     with rp:
-                        x = (GradDrop(leak=lt) if fname is None else GradDrop(f=torch.square, leak=lt))(Jt)
+                        x = (GradDrop(leak=lt) if fname is None else GradDrop(torch.square, lt))(Jt)
                 except DrawReplayer.Mismatch as e:
                     raise HarnessError(f"GradDrop draw protocol changed: {e}")
                 except Exception as e:
